@@ -8,7 +8,9 @@ from ..tlaparse import parse_state
 LEVEL = 'model_checking'
 TLA = os.path.join(SPEC, 'woehler', 'MC_Woehler.tla')
 INF = 1000000
-PROB = {1: 0.1, 2: 0.5, 3: 0.9}
+from scipy.stats import norm as _norm
+_Z9 = _norm.ppf(0.9)
+PROB = {1: 0.1, 2: 0.5, 3: 0.9, -2: float(_norm.cdf(-4 * _Z9)), 6: float(_norm.cdf(4 * _Z9))}      # index i -> Phi((i - 2) z_0.9)
 REL = 1e-9
 
 
@@ -73,8 +75,22 @@ def check_state(st, kden, rng):
             ser = wc.cycles(pd.Series([2.0 ** v for v in xs], index=pd.Index(['u', 'v', 'w'], name='scenario')), PROB[pg])
             if not (close(arr, sc, 0) and close(ser.to_numpy(), sc, 0) and list(ser.index) == ['u', 'v', 'w']):
                 viol.append(('array / Series evaluation differs from element-wise scalar evaluation', case, sc, [np.asarray(arr).tolist(), ser.tolist()]))
+            # neighbourhood of the knee (off the lattice): below_limit is the STRICT comparison src < ref, with no tolerance band
+            eps = 2.0 ** -20
+            k2 = float(src.k_2)
+            nb = float(wc.cycles(float(t.SD) * (1 - eps), PROB[pg]))
+            want_nb = np.inf if np.isinf(k2) else float(t.ND) * (1 - eps) ** (-k2)
+            if not close(nb, want_nb, 1e-9):
+                viol.append(('cycles for a load 1e-6 (relative) below the endurance limit are not on the k_2 branch', case, want_nb, nb))
+            na = float(wc.cycles(float(t.SD) * (1 + eps), PROB[pg]))
+            if not close(na, float(t.ND) * (1 + eps) ** (-float(src.k_1)), 1e-9):
+                viol.append(('cycles for a load 1e-6 (relative) above the endurance limit are not on the k_1 branch', case, float(t.ND) * (1 + eps) ** (-float(src.k_1)), na))
+            lbk = float(wc.load(float(t.ND) * (1 + eps), PROB[pg]))
+            want_lbk = float(t.SD) if np.isinf(k2) else float(t.SD) * (1 + eps) ** (-1.0 / k2)
+            if not close(lbk, want_lbk, 1e-9):
+                viol.append(('load for a cycle number 1e-6 (relative) beyond the knee is not on the k_2 branch', case, want_lbk, lbk))
             # group law and identity on the real object
-            q = rng.choice([1, 2, 3])
+            q = rng.choice([1, 2, 3, -2])
             t2 = wc.transform_to_failure_probability(PROB[q]).transform_to_failure_probability(PROB[pg])
             if not (close(t2.SD, t.SD, 1e-12) and close(t2.ND, t.ND, 1e-12)):
                 viol.append(('transforming via %s differs from transforming directly' % PROB[q], case, [float(t.SD), float(t.ND)], [float(t2.SD), float(t2.ND)]))
@@ -177,12 +193,12 @@ def run(chk):
         if not (close(std_to_scattering_range(s), T, 1e-12) and close(10 ** (2 * z * s), T, 1e-12) and close(scattering_range_to_std(std_to_scattering_range(0.01 * t)), 0.01 * t, 1e-12)):
             chk.violation('scatter range <-> standard deviation conversions are not mutual inverses with T = 10^(2 z_0.9 s)', {'T': T}, T, float(std_to_scattering_range(s)), part='scatter')
     chk.cov['rule'] = ('TLC enumerates curves on the log2 lattice (k_1 in {2,3,5} and {2.5,3.5}; k_2 in {k_1, 2k_1-1, k_1+2, inf}; TS, TN powers of 4; native and goal failure probability '
-                       'in {10,50,90}%; loads around the shifted knee) and proves the algebraic laws; each state is evaluated through pd.Series(...).woehler (transform, cycles, load incl. integer '
+                       'in {1.5e-7, 10, 50, 90 % (, 1 - 1.5e-7)}; loads around the shifted knee, plus off-lattice probes 2^-20 next to the knee) and proves the algebraic laws; each state is evaluated through pd.Series(...).woehler (transform, cycles, load incl. integer '
                        'typed cycles, array/Series forms, Miner variants, non-mutation of the source object and of the signal) and a sample through DataFrame x Series broadcasting. '
                        'Non-trivial = goal probability differs from native and life finite.')
     chk.cov['exhaustive'] = True
     chk.assumptions += ['powers of two are exact in float64; the code\'s 10**(...) shift is inexact, comparisons at rel 1e-9; at the knee of a k_2=inf curve after such a shift either branch is accepted (Tie)',
-                        'failure probabilities restricted to 10/50/90 % (probit differences are exact multiples of z_0.9)']
+                        'failure probabilities restricted to Phi(k z_0.9), k in {-4,-1,0,1,4} (probit differences are multiples of z_0.9)']
 
 
 def replay(chk, path):
